@@ -32,8 +32,11 @@
 //	adversary three more foreign-id kinds (id-1, equal in the low 16 bits, sign flipped)
 //
 // The in-memory connection never blocks: a Read on an empty stream returns io.EOF, so a peer that waits for
-// bytes which were never written shows up as a deterministic error, not as a hang. TCP sessions carry a 20 s
-// I/O deadline whose only purpose is to turn a hang into a harness error (exit 2), never into a verdict.
+// bytes which were never written shows up as a deterministic error, not as a hang. A TCP session whose peers wait
+// for each other for good is recognised by engine.WaitDone (the whole process is stalled: no thread running or
+// runnable, no CPU burnt, for several consecutive seconds; slowness on a loaded machine never counts): its
+// listener and server-side connection are then closed, which unblocks both peers, and the session is a harness
+// error (exit 2), never a verdict. The 10-minute I/O deadline on the sockets is only a backstop for the same.
 package main
 
 import (
@@ -59,7 +62,87 @@ import (
 
 var rep *engine.Report
 
-var ioDeadline = 20 * time.Second
+// ioDeadline is a backstop only (see sessionGuard); it can end in a harness error, never in a verdict.
+var ioDeadline = 10 * time.Minute
+
+// stallQuiet is the number of consecutive seconds the process must be stalled before a TCP session is given up.
+var stallQuiet = 10
+
+// sessionGuard unblocks a TCP session whose peers are blocked for good. Everything that a blocked peer could be
+// waiting on from the server side (listener, accepted connection) is registered; when the process is found
+// stalled while the session is still open, they are closed: Accept and the server's reads fail, the client's
+// read sees the connection go away. There is no wall-clock limit: a slow session on a loaded machine keeps going.
+//
+// One monitor goroutine serves all sessions (one observer per session would keep the process busy with the
+// observers themselves): a stalled process means that every open session is blocked for good, so all are broken up.
+type sessionGuard struct {
+	mu      sync.Mutex
+	closers []io.Closer
+	stalled bool
+}
+
+var (
+	guardMu     sync.Mutex
+	openGuards  = map[*sessionGuard]struct{}{}
+	guardOnce   sync.Once
+	neverClosed = make(chan struct{})
+)
+
+func stallMonitor() {
+	for {
+		if engine.WaitDone(neverClosed, stallQuiet) {
+			return
+		}
+		guardMu.Lock()
+		gs := make([]*sessionGuard, 0, len(openGuards))
+		for g := range openGuards {
+			gs = append(gs, g)
+		}
+		guardMu.Unlock()
+		for _, g := range gs {
+			g.mu.Lock()
+			g.stalled = true
+			for _, c := range g.closers {
+				c.Close()
+			}
+			g.mu.Unlock()
+		}
+	}
+}
+
+func newSessionGuard() *sessionGuard {
+	guardOnce.Do(func() { go stallMonitor() })
+	g := &sessionGuard{}
+	guardMu.Lock()
+	openGuards[g] = struct{}{}
+	guardMu.Unlock()
+	return g
+}
+
+func (g *sessionGuard) add(c io.Closer) {
+	g.mu.Lock()
+	if g.stalled {
+		c.Close()
+	} else {
+		g.closers = append(g.closers, c)
+	}
+	g.mu.Unlock()
+}
+
+// broken tells whether the session had to be broken up so far.
+func (g *sessionGuard) broken() bool {
+	g.mu.Lock()
+	defer g.mu.Unlock()
+	return g.stalled
+}
+
+// finish ends the watch and tells whether the session had to be broken up.
+func (g *sessionGuard) finish() bool {
+	guardMu.Lock()
+	delete(openGuards, g)
+	guardMu.Unlock()
+	return g.broken()
+}
 
 // ---------------------------------------------------------------------------------------------
 // in-memory, non-blocking connection
@@ -653,6 +736,8 @@ func runTCP(clientPw, serverPw string, cmds, resps []string) (res tcpResult) {
 	if tl, ok := l.Listener.(*net.TCPListener); ok {
 		tl.SetDeadline(time.Now().Add(ioDeadline))
 	}
+	g := newSessionGuard()
+	g.add(l)
 	type srvOut struct {
 		loginErr error
 		cmds     []string
@@ -669,6 +754,7 @@ func runTCP(clientPw, serverPw string, cmds, resps []string) (res tcpResult) {
 			return
 		}
 		defer conn.Close()
+		g.add(conn)
 		if rc, ok := conn.(*mcnet.RCONConn); ok {
 			rc.SetDeadline(time.Now().Add(ioDeadline))
 		}
@@ -715,9 +801,12 @@ func runTCP(clientPw, serverPw string, cmds, resps []string) (res tcpResult) {
 	}
 	o := <-ch
 	res.serverLoginErr, res.serverCmds, res.serverErrs, res.harness = o.loginErr, o.cmds, o.errs, o.harness
+	if g.finish() {
+		res.harness = errors.New("the session stalled (both peers blocked for good) and was broken up")
+	}
 	for _, e := range append(append([]error{res.clientLoginErr, res.serverLoginErr}, res.clientErrs...), res.serverErrs...) {
 		if isTimeout(e) {
-			res.harness = fmt.Errorf("I/O deadline (%v) hit: %v", ioDeadline, e)
+			res.harness = fmt.Errorf("backstop I/O deadline (%v) hit: %v", ioDeadline, e)
 		}
 	}
 	return
@@ -1110,6 +1199,8 @@ func judgeAdversaryTCP(c Case) {
 	}
 	defer l.Close()
 	l.(*net.TCPListener).SetDeadline(time.Now().Add(ioDeadline))
+	g := newSessionGuard()
+	g.add(l)
 	pw := passwords[c.ClientPw]
 	idKind, typ := c.LoginAns/2, int32(c.LoginAns%2*2)
 	type out struct {
@@ -1130,6 +1221,7 @@ func judgeAdversaryTCP(c Case) {
 			return
 		}
 		defer conn.Close()
+		g.add(conn)
 		conn.SetDeadline(time.Now().Add(ioDeadline))
 		o.login, o.raw, err = readFrameTCP(conn)
 		if err != nil {
@@ -1164,8 +1256,8 @@ func judgeAdversaryTCP(c Case) {
 		rc.Close()
 	}
 	o := <-ch
-	if o.harness != nil || isTimeout(cerr) || isTimeout(respErr) {
-		tcpTrouble(c, fmt.Errorf("scripted TCP server: %v / %v / %v", o.harness, cerr, respErr))
+	if stalled := g.finish(); stalled || o.harness != nil || isTimeout(cerr) || isTimeout(respErr) {
+		tcpTrouble(c, fmt.Errorf("scripted TCP server (stalled=%v): %v / %v / %v", stalled, o.harness, cerr, respErr))
 		return
 	}
 	rep.Eval(1)
@@ -1740,7 +1832,7 @@ func main() {
 	rep.Sample(tcp[len(tcp)-1])
 	memPhaseFailed = rep.Failed()
 	if memPhaseFailed {
-		ioDeadline = 3 * time.Second
+		stallQuiet = 3
 	}
 	runAll(tcp)
 	tally(tcp)
@@ -1780,7 +1872,7 @@ func main() {
 	rep.Extra("request_id_history_max_steps", idSteps)
 	rep.Extra("adversary_answer_id_kinds", idKinds)
 	rep.Extra("size_limit_declared_length", refrcon.MaxLength)
-	rep.Assume("refrcon (Source RCON layout, declared length 10..4096) is trusted and pinned to the protocol documentation's example packet; DialRCON's request id (rand.Int31) is observed from the wire, never assumed; loopback TCP sessions use a 20 s I/O deadline that can only produce a harness error")
+	rep.Assume("refrcon (Source RCON layout, declared length 10..4096) is trusted and pinned to the protocol documentation's example packet; DialRCON's request id (rand.Int31) is observed from the wire, never assumed; a loopback TCP session is given up only when the process is stalled (engine.WaitDone) or a 10-minute backstop deadline fires, and either can only produce a harness error")
 	rep.Note("unspecified verdicts: payloads above the limit on the write side; truncated in-range frames; responses under the right id but a non-zero type; login answers that are neither the echoed id nor -1; right password / command under a wrong frame type")
 	rep.Note("reader devices only give answers the io.Reader contract permits (short reads, the last bytes together with io.EOF, (0, nil)); a complete frame delivered that way must read back like any other")
 	rep.Finish()
